@@ -9,8 +9,8 @@ from . import c07
 PROP = "C01"
 MODULE = "OpnVerif.Props.C01"
 GRAN = "1:-10"
-FOLLOW = ["total", "tell", "tracks", "songs", "meta", "tickall 3000 " + GRAN, "atend", "seek 1:-1", "tickall 500 " + GRAN, "selectsong -1", "selectsong 1", "selectsong 100",
-          "rewind", "playlog 20000 1024", "seek 5:0", "rewind", "loop 1", "loopcount 2", "tickall 400 " + GRAN, "loop 0", "meta", "total"]
+FOLLOW = ["total", "tell", "tracks", "songs", "meta", "tickall 300 " + GRAN, "atend", "seek 1:-1", "tickall 200 " + GRAN, "selectsong -1", "selectsong 1", "selectsong 100",
+          "rewind", "playlog 20000 1024", "seek 5:0", "rewind", "loop 1", "loopcount 2", "tickall 30 " + GRAN, "loop 0", "meta", "total"]
 
 
 def rng_pick(ctx):
@@ -23,11 +23,11 @@ def images(ctx):
     out = []          # (kind, bytes)
     for img in gen_smf.tail_cases():
         out.append(("smf-tail", img))
-    for i in range(6 if quick else 200):
+    for i in range(6 if quick else 60):
         song = gen_smf.gen_song(rng, loops="stack" if i % 3 == 2 else None, ntracks=rng.choice([2, 3]) if i % 3 == 2 else None)
         img = song.encode(running_status=rng.random() < 0.5, drop_eot=(0,) if rng.random() < 0.2 else ())
         out.append(("smf-valid", img))
-        for m in gen_smf.mutate(rng, img, 4 if quick else 25):
+        for m in gen_smf.mutate(rng, img, 4 if quick else 12):
             out.append(("smf-mutated", m))
         out.append(("rmi", gen_smf.rmi(img)))
         for m in gen_smf.mutate(rng, gen_smf.rmi(img), 2):
@@ -36,17 +36,17 @@ def images(ctx):
             body = img[22:]
             out.append(("gmf", b"GMF\x01" + bytes([rng.randrange(256) for _ in range(3)]) + body))
             out.append(("gmf-short", (b"GMF\x01" + body)[:rng.choice([4, 7, 13, 14, 15, 20])]))
-    for i in range(5 if quick else 150):
+    for i in range(5 if quick else 50):
         mus = gen_mus.gen_mus(rng)
         out.append(("mus-valid", mus))
-        for m in gen_mus.mutate(rng, mus, 4 if quick else 20):
+        for m in gen_mus.mutate(rng, mus, 4 if quick else 10):
             out.append(("mus-mutated", m))
         xmi = gen_mus.gen_xmi(rng)
         out.append(("xmi-valid", xmi))
-        for m in gen_mus.mutate(rng, xmi, 4 if quick else 20):
+        for m in gen_mus.mutate(rng, xmi, 4 if quick else 10):
             out.append(("xmi-mutated", m))
     # detectors of the formats the synthesizer refuses (CMF / IMF / EA-MUS) and noise
-    for i in range(8 if quick else 300):
+    for i in range(8 if quick else 100):
         n = rng.choice([14, 15, 16, 40, 100, 400])
         head = rng.choice([b"CTMF", b"CTMF\x01\x01", b"\x00\x00", b"RSXX", b"}u\x7f", b"MThd", b"MUS\x1a", b"FORM\0\0\0\x10XDIR", b"RIFF", b"GMF\x01", b""])
         body = bytes(rng.choice([0, 0, 1, 0x7F, 0xFF, rng.randrange(256)]) for _ in range(n))
@@ -81,7 +81,7 @@ def run(tier, replay=None):
                     h += ["opendata " + im.hex()] + FOLLOW + ["selectsong %d" % rng_pick(ctx)] + ["usage"]
                 hs.append((h, "+".join(sorted(set(kd for kd, _ in group))), sum(len(im) for _, im in group)))
                 group = []
-    res = sq.run([h for h, _, _ in hs], timeout=1200)
+    res = sq.run([h for h, _, _ in hs], timeout=2400, batch=8)
     nfail = 0
     kinds = collections.Counter()
     accepted = collections.Counter()
@@ -105,7 +105,8 @@ def run(tier, replay=None):
                 accepted[kind] += 1
             worst_ms = max(worst_ms, ms1 - ms0); worst_kb = max(worst_kb, kb1 - kb0)
             # time and memory proportional to the input: generous linear envelopes (sanitizer build)
-            if ms1 - ms0 > 4000 + 40 * n:
+            # (every tick call is bounded by the anti-freeze counter: 10000 rounds, about 10 ms in this build; about 530 tick calls follow each load)
+            if ms1 - ms0 > 15000 + 40 * n:
                 fails.append(("loading and exercising a %d-byte file took %d ms of CPU" % (n, ms1 - ms0), j, k1))
             if kb1 - kb0 > 65536 + 64 * n:
                 fails.append(("loading and exercising a %d-byte file raised the peak memory by %d KiB" % (n, kb1 - kb0), j, k1))
@@ -123,4 +124,4 @@ def run(tier, replay=None):
                             "rendering and looping; CPU time and peak RSS growth per file are compared with linear envelopes; for the formats the Lean model covers the result "
                             "(accepted/rejected) and everything delivered afterwards are compared with the model"})
     return ctx.finish(trusted_extra=["sanitizer verdicts and getrusage() figures of the harness process"],
-                      assumptions=["linear envelopes: 4 s + 40 ms/byte CPU and 64 MiB + 64 KiB/byte memory per file in the sanitizer build"])
+                      assumptions=["linear envelopes: 15 s + 40 ms/byte CPU and 64 MiB + 64 KiB/byte memory per file in the sanitizer build"])
